@@ -236,6 +236,38 @@ def audit(prop, thorough=False):
     return res
 
 
+# --------------------------------------------------------------------------- translation tie (second tie)
+
+def translation_ties(prop):
+    """Regenerate the Lean definitions of the pure core functions from the *current* source under $REPO with
+    tools/py2lean.py and re-check the theorems `generated function = hand-written model function`
+    (lean/ArtapModel/Tie/*.lean).  Returns one dict per tie module that serves `prop`.
+    A tie that no longer checks is not a verdict: the correspondence check (the other tie) then decides."""
+    tool = os.path.join(VERIF, "tools", "py2lean.py")
+    if not os.path.exists(tool):
+        return []
+    try:
+        r = subprocess.run(["python3", tool, "--list"], capture_output=True, text=True, timeout=120)
+    except Exception as e:   # noqa
+        return [{"name": "?", "generated": False, "tie_checks": False, "detail": "py2lean --list failed: %r" % (e,)}]
+    names = []
+    for line in r.stdout.splitlines():
+        m = re.match(r"\s*(\S+)\s+\S+\s+serves\s+(\S+)", line)
+        if m and prop in m.group(2).split(","):
+            names.append(m.group(1))
+    out = []
+    for n in names:
+        try:
+            r = subprocess.run(["python3", tool, "--tie", n], capture_output=True, text=True, timeout=1800,
+                               env=dict(os.environ, REPO=REPO))
+            last = [l for l in r.stdout.splitlines() if l.startswith("{")]
+            out.append(json.loads(last[-1]) if last else {"name": n, "generated": False, "tie_checks": False,
+                                                           "detail": "no answer from py2lean: " + (r.stdout + r.stderr)[-400:]})
+        except Exception as e:   # noqa
+            out.append({"name": n, "generated": False, "tie_checks": False, "detail": "py2lean --tie failed: %r" % (e,)})
+    return out
+
+
 # --------------------------------------------------------------------------- run context
 
 TRUSTED_BASE = [
@@ -326,6 +358,10 @@ def finish(ctx, aud, level="proof"):
         "samples": ctx.samples[:6], "traces_validated_against_impl": ctx.traces_validated or ctx.evaluations,
         "input_distribution": ctx.dist,
     }
+    ties = getattr(ctx, "ties", [])
+    if ties:
+        cov["translation_tie"] = [{k: t.get(k) for k in ("name", "generated", "tie_checks", "theorems", "source_blob", "detail")} for t in ties]
+        cov["translation_tie_checker_cmd"] = "REPO=%s python3 tools/py2lean.py --tie <Name>   # regenerates lean/ArtapModel/Gen/<Name>.lean from the source, lake build ArtapModel.Tie.<Name>, #print axioms" % REPO
     cov.update(ctx.extra)
     ev = {"property_id": ctx.prop, "tier": ctx.tier, "seed": ctx.seed, "level": level, "coverage": cov,
           "assumptions": ctx.assumptions, "wall_s": round(time.time() - ctx.t0, 2), "violations": len(new),
@@ -333,6 +369,12 @@ def finish(ctx, aud, level="proof"):
     os.makedirs(os.path.join(VERIF, "evidence"), exist_ok=True)
     with open(os.path.join(VERIF, "evidence", ctx.prop + ".json"), "w") as fh:
         json.dump(ev, fh, indent=1, default=str)
+    broken = [t for t in ties if not (t.get("generated") and t.get("tie_checks"))]
+    for t in broken:
+        print("TIE-BROKEN: property=%s translation tie %s no longer checks against the current source (%s); %s" % (
+            ctx.prop, t.get("name"), str(t.get("detail"))[:300],
+            "the correspondence check found a failing input" if new else
+            "no failing input found by the correspondence check, which still ties the model to the code: the property remains shown through that tie"))
     print("%s %s seed=%d: obligations %d/%d, cases %d (distinct non-trivial %d), violations %d, %.1fs" % (
         ctx.prop, ctx.tier, ctx.seed, aud["discharged"], aud["obligations"], ctx.evaluations, len(ctx.distinct),
         len(new), time.time() - ctx.t0))
